@@ -47,7 +47,7 @@ CHECKS = {
         "Tie: updateRegex/readCurrentRegex (real code via hooks) vs the compiled model on generated rules files, byte-exact; the generator records the byte span of the addressed operand and the oracle checks every other byte; update binary on sandbox trees.",
    design="§7 C11", technique="Lean 4 proof (frame theorem over split/join lines) + differential correspondence"),
  "C12": dict(
-   text="Lean theorems: C12_roundtrip (what update writes is what compare reads back, for every one-line regex whatever it contains, under the explicit side condition KeepsClass: the rewritten line is still classified alike by the `id:R`/`SecRule` line tests), C12_second_update_noop, C12_compare_iff, C12_update_then_compare. Key lemma splitOperand_rebuild: the first operator stays the first, the last `\" \\` stays the last. "
+   text="Lean theorems: C12_roundtrip (what update writes is what compare reads back, for every one-line regex whatever it contains, under the explicit side condition KeepsClass: the rewritten line is still classified alike by the `SecRule` line test that counts chained rules — automatic when the keyword stands on the operand line; the `id:R` half of that condition disappeared with the repair of D27, isIdLine_operand_line), C12_second_update_noop, C12_compare_iff, C12_update_then_compare. Key lemma splitOperand_rebuild: the first operator stays the first, the last `\" \\` stays the last. "
         "Tie: as C11 plus histories update→compare, update→update, edit-one-byte→compare on the real binaries (single rule and GitHub mode).",
    design="§7 C12", technique="Lean 4 proof (round-trip law) + differential correspondence + CLI histories"),
  "C17": dict(
